@@ -8,6 +8,7 @@ use dashu_int::IBig;
 
 use crate::{
     error::{assert_finite, assert_limited_precision, panic_log_nonpositive},
+    exp::mark_inexact,
     fbig::FBig,
     repr::{Context, Repr, Word},
     round::{Round, Rounded},
@@ -312,7 +313,8 @@ impl<R: Round> Context<R> {
         } else {
             2 * sum + s * work_context.ln2()
         };
-        result.with_precision(self.precision)
+        // the shortcuts above return the only exact values of the logarithm
+        mark_inexact(result.with_precision(self.precision))
     }
 }
 
